@@ -498,6 +498,10 @@ class ServerFamily(Family):
         yield [f"f64 {b:016x}" for b in GA.NUM_EDGES] + [f"f64 {GS.f64bits(x):016x}" for x in (4294967295.0, 4294967295.5, 4294967296.0, 0.999, 1e-46, 1e39, 3.4028235e38, 3.4028236e38, 16777217.0, 1.0000000596046448, 1.401298464324817e-45, 7e-46, 29.97)]
         yield [f"f64 {rng.next():016x}" for _ in range(400)] + [f"f32 {rng.below(1 << 32):08x}" for _ in range(300)] + ["f32 00000001", "f32 007fffff", "f32 7f800000", "f32 7fc00001", "f32 ff800000", "f32 80000000", "f32 00800000"]
         yield [f"u32f {n}" for n in (0, 1, 2, 3, 255, 65535, 16777215, 16777216, 16777217, (1 << 31) - 1, 1 << 31, M32 - 1)] + [f"u32f {rng.below(M32)}" for _ in range(100)]
+        if pid in ("C18", "C03"):
+            for ms in [0, 1, 0xFFFFFF - 2000, 0xFFFFFF - 1, 0xFFFFFF, 0x1000000, M32 - 2000, M32 - 1, M32, M32 + 1, M32 + 0xFFFFFF, 5 * M32 + 7, rng.below(1 << 40), rng.below(1 << 34)]:
+                bump(stats, "uptime_runs_real_clock")
+                yield [f"!sess.uptime s {ms}", f"!sess.uptime c {ms}"]
         n = 700 if tier == "quick" else 8000
         for _ in range(n):
             yield GS.server_case(rng, stats, rng.range(1, 25), pid)
@@ -600,6 +604,9 @@ def matches_known(k, fname, ops, line, txt):
         if (b - a) % M32 != (1 << 31):
             return False
         return txt.startswith("! FAIL later") and "," not in txt.split(" ")[2]
+    if cls == "session-after-input-error":
+        # K2: only the decodability oracle, only after a handle_input call of this history returned Err
+        return fname in ("server", "client") and line.startswith("!sess.decodable") and "after-input-error" in txt
     if cls == "chunk-interleave-overlap":
         # K1: only streams the generator marked as overlapping interleavings, only the decoded-messages oracle
         return fname == "foreign" and len(ops) > 0 and ops[0] == "note overlap" and line.startswith("!des.decoded")
